@@ -18,6 +18,8 @@ import RtrModel.Spki
 import RtrModel.Proto
 import RtrProofs.CLinkIo
 import RtrProofs.CLinkFsm
+import RtrProofs.CLinkSync
+import RtrProofs.CLinkRecv
 
 open Rtr Rtr.Gen Rtr.Proto Rtr.P
 
@@ -123,6 +125,55 @@ def step (line : String) : String :=
       reply (showOpt (fun x => toString x.toNat) (C.key_entry_cmp (mk a1 k1 p1 s1) (mk a2 k2 p2 s2)))
             (if SpkiTable.cmp (mr a1 k1 p1 s1) (mr a2 k2 p2 s2) then "0" else "1")
     | _, _, _, _, _, _, _, _ => "bad-op"
+  | "proto_fn" :: fn :: rest =>
+    -- proto_fn <function> <socket: 13 numbers> ; <hex bytes of the buffer / PDU> ; <answer: rc aux hexbuf + 13 numbers> ; ...
+    -- the translated protocol function next to its specification (RtrProofs/CLinkSync.lean) in the world made of the answers
+    let groups := (" ".intercalate rest).splitOn ";" |>.map (fun g => (g.splitOn " ").filter (· ≠ ""))
+    let toSock (l : List String) : Option C.S_rtr_socket := do
+      match l.mapM String.toInt? with
+      | some [r, lu, e, y, iv, st, sid, rq, sn, th, v, hp, ir] =>
+        pure { refresh_interval := BitVec.ofInt 32 r, last_update := BitVec.ofInt 64 lu, expire_interval := BitVec.ofInt 32 e,
+               retry_interval := BitVec.ofInt 32 y, iv_mode := BitVec.ofInt 32 iv, state := BitVec.ofInt 32 st,
+               session_id := BitVec.ofInt 32 sid, request_session_id := rq != 0, serial_number := BitVec.ofInt 32 sn,
+               thread_id := BitVec.ofInt 64 th, version := BitVec.ofInt 32 v, has_received_pdus := hp != 0, is_resetting := ir != 0 }
+      | _ => none
+    let showSock (s : C.S_rtr_socket) : String :=
+      s!"{s.refresh_interval.toNat} {s.last_update.toInt} {s.expire_interval.toNat} {s.retry_interval.toNat} {s.iv_mode.toInt} {s.state.toNat} {s.session_id.toNat} {if s.request_session_id then 1 else 0} {s.serial_number.toNat} {s.thread_id.toNat} {s.version.toNat} {if s.has_received_pdus then 1 else 0} {if s.is_resetting then 1 else 0}"
+    let showTrace (t : List (String × List (BitVec 64) × C.S_rtr_socket)) : String :=
+      "/".intercalate (t.map fun c => s!"{c.1} {" ".intercalate (c.2.1.map fun a => toString a.toInt)} | {showSock c.2.2}")
+    let sh (r : Option (BitVec 32 × C.S_rtr_socket × C.XWorld C.S_rtr_socket)) : String :=
+      showOpt (fun x => s!"{x.1.toInt} {showSock x.2.1} # {showTrace x.2.2.trace}") r
+    match groups with
+    | s0 :: [hex] :: answers =>
+      match toSock s0, hexToBytes? (if hex = "-" then "" else hex), answers.mapM (fun a => match a with
+                                       | rc :: aux :: hb :: st => (do let rc ← rc.toInt?; let aux ← aux.toInt?; let st ← toSock st
+                                                                      let b ← hexToBytes? (if hb = "-" then "" else hb)
+                                                                      pure ({ rc := BitVec.ofInt 64 rc, aux := BitVec.ofInt 64 aux, st := st, buf := b.map (BitVec.ofNat 8) } : C.ExtAns C.S_rtr_socket))
+                                       | _ => none) with
+      | some s0, some bytes, some answers =>
+        let stop : C.ExtAns C.S_rtr_socket := { rc := BitVec.ofInt 64 (-1), aux := 0, st := { s0 with state := 9#32 } }
+        let w : C.XWorld C.S_rtr_socket := { ext := fun i => answers.getD i stop }
+        let mem := C.memOfList bytes
+        match fn with
+        | "wait_for_sync" => reply (sh (C.rtr_wait_for_sync w s0)) (sh (CLink.waitForSyncSpec w s0))
+        | "sync" => reply (sh (C.rtr_sync.loop1 (answers.length + 2) w (fun _ => 0#8) 3248 0 s0)) (sh (CLink.syncSpec (answers.length + 2) w s0))
+        | "serial_query" => reply (sh (C.rtr_send_serial_query w s0)) (sh (CLink.serialQuerySpec w s0))
+        | "reset_query" => reply (sh (C.rtr_send_reset_query w s0)) (sh (CLink.resetQuerySpec w s0))
+        | "set_last_update" => reply (sh (C.rtr_set_last_update w s0)) (sh (CLink.setLastUpdateSpec w s0))
+        | "cache_response" => reply (sh (C.rtr_handle_cache_response_pdu w mem bytes.length s0 0)) (sh (CLink.cacheResponseSpec w mem bytes.length s0 0))
+        | "error_pdu" => reply (sh (C.rtr_handle_error_pdu w mem bytes.length s0 0)) (sh (CLink.errorPduSpec w mem bytes.length s0 0))
+        | "receive_pdu" =>
+          -- the buffer: 3248 bytes at address 0 (initial contents: the given bytes, then zeros); timeout 7
+          let msz := 3248
+          let showBuf (m : Nat → BitVec 8) : String := bytesToHex ((List.range 40).map fun i => (m i).toNat)
+          let g := (C.rtr_receive_pdu w mem msz s0 0 (BitVec.ofNat 64 3248) 7#64).map fun x => (x.1, x.2.1, x.2.2.2, showBuf x.2.2.1)
+          let o := CLink.Recv.recvModel w mem msz s0 0 7#64
+          let sh2 (r : Option (BitVec 32 × C.S_rtr_socket × C.XWorld C.S_rtr_socket × String)) : String :=
+            showOpt (fun x => s!"{x.1.toInt} {showSock x.2.1} {x.2.2.2} # {showTrace x.2.2.1.trace}") r
+          reply (sh2 g) (sh2 (some (o.rc, o.sock, o.w, showBuf o.mem)))
+        | _ => "bad-op"
+      | _, _, _ => "bad-op"
+    | _ => "bad-op"
   | "fsm_replay" :: iters :: rest =>
     -- fsm_replay <max iterations> <socket: 13 numbers> ; <answer: rc aux + 13 numbers> ; ...
     -- runs the TRANSLATED state machine (rtr_fsm_start.loop1.step, iterated) and the SPECIFICATION skeleton in the world made of
